@@ -32,6 +32,30 @@ except ImportError:  # pragma: no cover
     InvalidStateError = RuntimeError
 
 
+def _install_cancel_recorder():
+    """Record every cancel() call arriving at a library future (observation from outside, no source hook)."""
+    from more_executors._impl import common
+
+    if getattr(common._Future.cancel, "_verif_wrapped", False):
+        return
+    orig = common._Future.cancel
+
+    def cancel(self):
+        s = vsched.cur_sched()
+        if s is None or s.aborting:
+            return orig(self)
+        s.record("lcancel_call", fid=id(self), cls=type(self).__name__)
+        r = orig(self)
+        s.record("lcancel_ret", fid=id(self), result=r)
+        return r
+
+    cancel._verif_wrapped = True
+    common._Future.cancel = cancel
+
+
+_install_cancel_recorder()
+
+
 class E0(Exception):
     pass
 
